@@ -25,6 +25,10 @@ type stEval struct {
 	cur   int64
 	steps int
 	fail  string
+	// branches on values the evaluator does not know (a counter compared with a ticket) are resolved by a choice
+	// vector; the drivers below enumerate all vectors and keep what every execution agrees on
+	choices []bool
+	ci      int
 }
 
 func (e *stEval) call(fn *ssa.Function, args []stVal) []stVal {
@@ -142,8 +146,11 @@ func (e *stEval) call(fn *ssa.Function, args []stVal) []stVal {
 			case *ssa.If:
 				c := val(x.Cond)
 				if !c.known {
-					e.fail = "branch on an unknown value in " + fnName(fn)
-					return nil
+					if e.ci >= len(e.choices) {
+						e.choices = append(e.choices, true)
+					}
+					c = stVal{true, b2i(e.choices[e.ci])}
+					e.ci++
 				}
 				if c.v != 0 {
 					next = b.Succs[0]
@@ -178,13 +185,17 @@ func b2i(b bool) int64 {
 	return 0
 }
 
-// stateAfter evaluates call (a method call on a state holder with constant arguments) from status cur.
-func stateAfter(call *ssa.Call, field *types.Var, cur int64) (int64, string) {
+type stOutcome struct {
+	ret   stVal
+	after int64
+}
+
+// stateOutcomes runs call from status cur under every resolution of its unknown branches.
+func stateOutcomes(call *ssa.Call, field *types.Var, cur int64) ([]stOutcome, string) {
 	cal := call.Call.StaticCallee()
 	if cal == nil {
-		return 0, "dynamic call"
+		return nil, "dynamic call"
 	}
-	e := &stEval{field: field, cur: cur}
 	args := []stVal{{}}
 	for _, a := range call.Call.Args[1:] {
 		if k, ok := constInt(a); ok {
@@ -193,11 +204,55 @@ func stateAfter(call *ssa.Call, field *types.Var, cur int64) (int64, string) {
 			args = append(args, stVal{})
 		}
 	}
-	e.call(cal, args)
-	if e.fail != "" {
-		return 0, e.fail
+	var outs []stOutcome
+	fail := ""
+	var rec func(prefix []bool)
+	rec = func(prefix []bool) {
+		if fail != "" {
+			return
+		}
+		if len(prefix) > 6 {
+			fail = "too many unknown branches"
+			return
+		}
+		e := &stEval{field: field, cur: cur, choices: append([]bool{}, prefix...)}
+		rs := e.call(cal, args)
+		if e.fail != "" {
+			fail = e.fail
+			return
+		}
+		if len(e.choices) > len(prefix) {
+			// a branch beyond the prefix was met: explore both of its outcomes
+			rec(append(append([]bool{}, prefix...), true))
+			rec(append(append([]bool{}, prefix...), false))
+			return
+		}
+		o := stOutcome{after: e.cur}
+		if len(rs) == 1 {
+			o.ret = rs[0]
+		}
+		outs = append(outs, o)
 	}
-	return e.cur, ""
+	rec(nil)
+	if fail != "" {
+		return nil, fail
+	}
+	return outs, ""
+}
+
+// stateAfter evaluates call (a method call on a state holder with constant arguments) from status cur; the status
+// afterwards must be the same under every resolution of unknown branches.
+func stateAfter(call *ssa.Call, field *types.Var, cur int64) (int64, string) {
+	outs, err := stateOutcomes(call, field, cur)
+	if err != "" {
+		return 0, err
+	}
+	for _, o := range outs[1:] {
+		if o.after != outs[0].after {
+			return 0, "the resulting status depends on a value the evaluator does not know"
+		}
+	}
+	return outs[0].after, ""
 }
 
 // ruleResumeRestoresConnected: the resume method of a stream asserts Resuming on entry; every nil-error return must be
@@ -305,30 +360,23 @@ func ruleResumeRestoresConnected(r *Run, id, typ string) {
 	r.Check(name+" asserts Resuming", guard, p.pos(fn.Pos()), name, "the entry test on the status (the evaluation above starts from Resuming because of it)")
 }
 
-// stateCallResult evaluates a state-holder method call with constant arguments from status cur and returns the
-// call's (single) result and the status afterwards.
+// stateCallResult evaluates a state-holder method call from status cur and returns the call's (single) result and
+// the status afterwards, as far as every resolution of unknown branches agrees on them (after is -1 when they do not).
 func stateCallResult(call *ssa.Call, field *types.Var, cur int64) (ret stVal, after int64, err string) {
-	cal := call.Call.StaticCallee()
-	if cal == nil {
-		return stVal{}, 0, "dynamic call"
+	outs, e := stateOutcomes(call, field, cur)
+	if e != "" {
+		return stVal{}, 0, e
 	}
-	e := &stEval{field: field, cur: cur}
-	args := []stVal{{}}
-	for _, a := range call.Call.Args[1:] {
-		if k, ok := constInt(a); ok {
-			args = append(args, stVal{true, k})
-		} else {
-			args = append(args, stVal{})
+	ret, after = outs[0].ret, outs[0].after
+	for _, o := range outs[1:] {
+		if o.ret != ret {
+			ret = stVal{}
+		}
+		if o.after != after {
+			after = -1
 		}
 	}
-	rs := e.call(cal, args)
-	if e.fail != "" {
-		return stVal{}, 0, e.fail
-	}
-	if len(rs) == 1 {
-		ret = rs[0]
-	}
-	return ret, e.cur, ""
+	return ret, after, ""
 }
 
 // ruleFailFastOnlyWhenClosed: an API method of iscp.Conn may refuse a request with ErrConnectionClosed on a test of
